@@ -172,11 +172,11 @@ class QueryHandler:
                 raise ValueError("Parse error: Missing closing curly bracket")
         else:
             next_token = self._get_next_token()
-            if next_token and next_token.kind == Token.Wildcard:
+            if next_token.kind == Token.Wildcard:
                 expr = ExpressionWildcardNew(next_token)
-            elif next_token:
+            elif next_token.kind == Token.Tag and next_token.text not in ("[[", "]]"):
                 expr = Expression(next_token)
             else:
-                expr = None
+                raise ValueError(f"Parse error: '{next_token.text}' found where a search term is expected")
 
         return expr
